@@ -1134,16 +1134,16 @@ class BMatrix(TwoPortMatrix):
     def Lsection(cls, Z1, Z2):
 
         Y = 1 / Z2
-        return cls(((1 + Y * Z1, -Z1),
-                    (-Y, 1)))
+        return cls(((1, -Z1),
+                    (-Y, 1 + Y * Z1)))
         # return cls.Zseries(Z1).chain(cls.Zshunt(Z2))
 
     @classmethod
     def Tsection(cls, Z1, Z2, Z3):
 
         Y = 1 / Z2
-        return cls(((1 + Y * Z1, -Z1 - Z3 * (1 + Y * Z1)),
-                    (-Y, 1 + Y * Z3)))
+        return cls(((1 + Y * Z3, -Z1 - Z3 * (1 + Y * Z1)),
+                    (-Y, 1 + Y * Z1)))
         # return cls.Lsection(Z1, Z2).chain(cls.Zseries(Z3))
 
     @classmethod
